@@ -239,7 +239,9 @@ impl AsyncReader {
     ///
     /// Returns `Some` with an index if a request was submitted. Otherwise, `None`.
     pub fn submit(&mut self, io_handle: &IoHandle, user_data: u64) -> Option<usize> {
-        if self.is_done_requesting() {
+        // Page numbers beyond those stored in the cell are only discovered by parsing earlier
+        // pages; until then there is nothing further to request.
+        if self.is_done_requesting() || self.request_index >= self.pages.len() {
             return None;
         }
 
